@@ -47,7 +47,7 @@ Bind(r) ==
     /\ tags' = [t \in DOMAIN st.tags |-> [def |-> DefOf(st.tags[t].def), M |-> S(st.tags[t].M), U |-> S(st.tags[t].U),
                                           convs |-> S(st.tags[t].convs), refBy |-> S(st.tags[t].refBy)]]
     /\ flags' = [merge |-> st.flags.merge, tag |-> st.flags.tag, conv |-> st.flags.conv]
-    /\ during' = [upd |-> S(st.during.upd), res |-> S(st.during.res), add |-> S(st.during.add)]
+    /\ during' = [upd |-> S(st.during.upd), res |-> S(st.during.res), add |-> S(st.during.add), inv |-> S(st.during.inv)]
     /\ unmerge' = st.unmerge
     /\ jobs' = [k \in {"import", "tag", "merge", "conv"} |-> JobOf(k, st.jobs[k])]
     /\ views' = [v \in DOMAIN st.views |->
@@ -95,6 +95,10 @@ StepOK(r) ==
                                         ELSE Rejected /\ ~MarkOK(ev.name, S(ev.ids))
            [] ev.a = "ViewOpen"      -> ViewOpen(ev.v)
            [] ev.a = "ViewRelease"   -> ViewRelease(ev.v)
+           [] ev.a = "SetConverters" -> IF r.res = "ok" THEN SetConverters(ev.name, S(ev.convs))
+                                        ELSE Rejected /\ ~SetConvOK(ev.name, S(ev.convs))
+           [] ev.a = "ConvReset"     -> ConvReset(ev.convs[1])
+           [] ev.a = "ViewConvert"   -> ViewConvert(ev.v, ev.k, ev.convs[1])
            [] OTHER                  -> TRUE            \* events the model does not constrain (yet)
 
 \* C11 (action property): an acknowledged call has taken effect
@@ -106,9 +110,10 @@ Applied(r) ==
           [] ev.a = "UpdQuery" -> ev.name \in DOMAIN tags' /\ tags'[ev.name].def = DefOf(ev.def)
           [] ev.a = "MarkAdd"  -> ev.name \in DOMAIN tags' /\ S(ev.ids) \subseteq tags'[ev.name].M
           [] ev.a = "MarkDel"  -> ev.name \in DOMAIN tags' /\ S(ev.ids) \cap tags'[ev.name].M = {}
+          [] ev.a = "SetConverters" -> ev.name \in DOMAIN tags' /\ tags'[ev.name].convs = S(ev.convs)
           [] OTHER -> TRUE
 \* C11 (action property): a rejected call leaves everything as it was
-RejectIsNoop(r) == r.res = "err" => UNCHANGED <<tags, flags, jobs, use, during, toConv, indexes, files, nextID, allS>>
+RejectIsNoop(r) == r.res = "err" => UNCHANGED <<tags, flags, jobs, use, during, toConv, cache, indexes, files, nextID, allS>>
 
 TraceInit == l = 0 /\ Init
 
@@ -169,6 +174,11 @@ Props ==
        \* ---- C11
        /\ Chk(GraphWellFormed, r, "C11.GraphWellFormed")
        /\ Chk(\A t \in DOMAIN tags : t \in DOMAIN r.obs.infos /\ r.obs.infos[t].referenced = (tags[t].refBy # {}), r, "C11.ReferencedMirrors")
+       \* ---- C16
+       /\ Chk(ConvFresh, r, "C16.ConvFresh")
+       /\ Chk(~flags.conv => ConvFresh, r, "C16.ConvFreshAtRest")
+       /\ Chk(ConvEventually, r, "C16.ConvEventually")
+       /\ Chk(r.noViewConvert => DetachStops, r, "C16.DetachStops")
        \* ---- C09
        /\ Chk(FlagsMatchJobs, r, "C09.FlagsMatchJobs")
        /\ Chk(NeverStuck, r, "C09.Stuck")
